@@ -2,6 +2,7 @@
 package c04
 
 import (
+	"cmp"
 	"fmt"
 	"runtime"
 	"sort"
@@ -722,6 +723,111 @@ func fixedCases() []Case {
 	return out
 }
 
+// ---------------------------------------------------------------------------
+// other instantiations: string, float64 and uint8 keys, struct values, comparators with a twist
+
+// TypesCase: Ops are (kind, key code): kind 0 Upsert(fresh value), 1 Delete, 2 Get. KT: 0 string keys ("k007") ascending,
+// 1 float64 keys (c/4-3) descending, 2 uint8 keys ascending, 3 string keys ordered by (length, then bytes) - a strict total
+// order that differs from the natural one.
+type TypesCase struct {
+	KT  int      `json:"kt"`
+	N   int      `json:"n"`
+	Ops [][2]int `json:"ops"`
+}
+
+type tval struct {
+	A int
+	B string
+}
+
+func runTypes[K cmp.Ordered](c TypesCase, name string, mk func(int) K, less func(a, b K) bool, r *pbt.R) error {
+	n := c.N
+	if n < 1 || n > 512 || len(c.Ops) > 5000 {
+		return nil
+	}
+	t := bstree.New[K, tval](less)
+	model := map[int]tval{}
+	next, absentDeleted := 0, false
+	carve := r.KF(kfSize)
+	for i, op := range c.Ops {
+		k := ((op[1] % n) + n) % n
+		ctx := func() string { return fmt.Sprintf("bstree.New[%s, struct] after %d of ops %v", name, i+1, c.Ops) }
+		switch ((op[0] % 3) + 3) % 3 {
+		case 0:
+			next++
+			v := tval{A: next, B: fmt.Sprint("v", next)}
+			t.Upsert(mk(k), v)
+			model[k] = v
+		case 1:
+			err := t.Delete(mk(k))
+			_, present := model[k]
+			if present != (err == nil) {
+				return fmt.Errorf("%s: Delete(%v) returned %v, the key is present: %v", ctx(), mk(k), err, present)
+			}
+			if !present {
+				absentDeleted = true
+			}
+			delete(model, k)
+		default:
+			got, err := t.Get(mk(k))
+			want, present := model[k]
+			if present != (err == nil) || (present && (got.Val != want || got.Key != mk(k))) {
+				return fmt.Errorf("%s: Get(%v) = (%v, %v), want (%v, present %v)", ctx(), mk(k), got, err, want, present)
+			}
+		}
+		if absentDeleted && carve {
+			r.Excluded(kfSize)
+		} else if t.Size() != len(model) {
+			return fmt.Errorf("%s: Size() = %d, want %d", ctx(), t.Size(), len(model))
+		}
+	}
+	var keys []K
+	t.Traverse(func(it bstree.Item[K, tval]) {
+		if len(keys) <= len(model)+4 {
+			keys = append(keys, it.Key)
+		}
+	})
+	if len(keys) != len(model) {
+		return fmt.Errorf("bstree.New[%s, struct] after ops %v: Traverse visits %d keys, want %d", name, c.Ops, len(keys), len(model))
+	}
+	for i := 1; i < len(keys); i++ {
+		if !less(keys[i-1], keys[i]) {
+			return fmt.Errorf("bstree.New[%s, struct] after ops %v: Traverse visits %v before %v, against the comparator", name, c.Ops, keys[i-1], keys[i])
+		}
+	}
+	r.NonTrivialIf(len(model) >= 3, ">= 3 keys at the end")
+	return nil
+}
+
+func typesProp(c TypesCase, r *pbt.R) error {
+	switch ((c.KT % 4) + 4) % 4 {
+	case 0:
+		return runTypes(c, "string", func(i int) string { return fmt.Sprintf("k%03d", i) }, func(a, b string) bool { return a < b }, r)
+	case 1:
+		return runTypes(c, "float64 (descending)", func(i int) float64 { return float64(i)/4 - 3 }, func(a, b float64) bool { return a > b }, r)
+	case 2:
+		return runTypes(c, "uint8", func(i int) uint8 { return uint8(i % 85 * 3) }, func(a, b uint8) bool { return a < b }, r)
+	default:
+		return runTypes(c, "string ordered by length, then bytes", func(i int) string { return strings.Repeat("z", i%4) + string(rune('a'+i/4%26)) + strings.Repeat("y", i/104) },
+			func(a, b string) bool {
+				if len(a) != len(b) {
+					return len(a) < len(b)
+				}
+				return a < b
+			}, r)
+	}
+}
+
+func typesGen(s pbt.Src, thorough bool) TypesCase {
+	c := TypesCase{KT: s.Intn(4), N: pbt.Pick(s, 3, 6, 20, 80)}
+	max := 150
+	if thorough {
+		max = 600
+	}
+	c.Ops = pbt.Seq(s, 1, max, func(s pbt.Src) [2]int { return [2]int{pbt.Pick(s, 0, 0, 0, 1, 2), s.Intn(c.N)} })
+	return c
+}
+
 func TestProp(t *testing.T) {
 	// A Traverse hands every item from an internal goroutine to the caller; with
 	// 16 shard processes on the machine a small GOMAXPROCS avoids the cost of
@@ -741,6 +847,12 @@ func TestProp(t *testing.T) {
 			Enum: enum, Gen: gen, Prop: prop, OutOfEnum: outOfEnum,
 			RapidQuick: 3000, RapidThorough: 40000,
 			Fixed: fixedCases(),
+		},
+		&pbt.Check[TypesCase]{
+			Name: "types",
+			Rule: "the same ordered-map semantics on other instantiations: bstree.New[K, struct] with K = string ascending, float64 descending (negative, zero, fractional keys), uint8, and strings ordered by (length, bytes); random Upsert/Delete/Get sequences of up to 150 (600) operations over 3..80 keys against a Go map: results of every call, Size after every call (subject to the known finding), Traverse in comparator order at the end. Non-trivial = >= 3 keys at the end.",
+			Gen: typesGen, Prop: typesProp, OutOfEnum: func(TypesCase, bool) bool { return true },
+			RapidQuick: 400, RapidThorough: 5000,
 		},
 	)
 }
